@@ -396,3 +396,61 @@ exec_harness! { fn c22_register_unregister_keep_map_and_set_in_step() {
     vassert!(prev.is_null(), "C22: unregistering something not registered returns null");
     core::mem::forget(st);
 }}
+
+// -------------------------------------------------------------------------------- thorough tier: a whole history in one harness
+// start_task (waits on W1) -> the host reports W1's event (work wakes itself: YIELD) -> EVENT_NONE (work finishes: EXIT).
+// Three executor steps in one CBMC run; the single-step obligations above are the deciding ones, this is the composed check.
+exec_harness! { fn c22t_three_step_history_start_event_yield_exit() {
+    reset([Step::PendingRegister, Step::PendingWake, Step::Ready]);
+    let rc = start_task(Body);
+    vassert!(rc as u32 == CallbackCode::Wait(SET).encode(), "C22: start_task answers like the first callback");
+    vassert!(sc().ctx_null_during_poll && !h().ctx.is_null());
+    let stored = h().ctx;
+    let rc = unsafe { callback(EVENT_SUBTASK, W1, 0) };
+    vassert!(rc == CallbackCode::Yield.encode());
+    vassert!(sc().cb_calls == 1 && sc().cb_entry_removed_before);
+    vassert!(sc().ctx_null_during_poll && h().ctx == stored, "C22: the same state is put back after a non-exiting callback");
+    let rc = unsafe { callback(EVENT_NONE, 0, 0) };
+    vassert!(rc == CallbackCode::Exit.encode());
+    vassert!(h().ctx.is_null() && sc().drops == 1 && sc().polls == 3, "C22: released exactly once on exit");
+    vassert!(h().sets_new == 1 && h().sets_dropped == 1);
+}}
+
+// -------------------------------------------------------------------------------- block_on (the synchronous driver loop)
+use super::super::block_on;
+exec_harness! { fn c22_block_on_ready_future_returns_without_waiting() {
+    reset([Step::Ready; 3]);
+    let v = block_on(async { Body.await; 7u32 });
+    vassert!(v == 7 && sc().polls == 1 && sc().drops == 1);
+    vassert!(h().wait_calls == 0 && h().poll_calls == 0, "C22: nothing pending => no wait");
+    vassert!(h().sets_new == h().sets_dropped);
+}}
+exec_harness! { fn c22_block_on_waits_on_own_set_until_the_event_then_returns() {
+    reset([Step::PendingRegister, Step::Ready, Step::Ready]);
+    let code = any_u32();
+    h().wait_answer = (EVENT_SUBTASK, W1, code);
+    let v = block_on(async { Body.await; 7u32 });
+    vassert!(v == 7 && sc().polls == 2 && sc().drops == 1);
+    vassert!(h().wait_calls == 1, "C22: pending and not woken => one waitable-set.wait on the task's own set");
+    vassert!(sc().cb_calls == 1 && sc().cb_code == code && sc().cb_entry_removed_before, "C22: the event from wait is delivered once, after leaving the set");
+    vassert!(host::joined_set_of(W1) == 0 && h().sets_new == 1 && h().sets_dropped == 1);
+}}
+
+// two registered waitables: EXIT only after both completed; WAIT on the own set in between
+exec_harness! { fn c22_two_waitables_exit_only_after_both_completed() {
+    let mut st = task_waiting_on_w1([Step::Ready; 3], true);
+    const W2: u32 = 6;
+    static mut SLOT2: u8 = 0;
+    st.shared.waitable_register(W2, body_cb, core::ptr::addr_of_mut!(SLOT2).cast());
+    vassert!(host::joined_set_of(W2) == SET);
+    let first_is_w1 = any_bool();
+    let (a, b) = if first_is_w1 { (W1, W2) } else { (W2, W1) };
+    let rc = st.callback(EVENT_SUBTASK, a, 1);
+    vassert!(sc().cb_calls == 1 && host::joined_set_of(a) == 0 && host::joined_set_of(b) == SET);
+    vassert!(rc == CallbackCode::Wait(SET), "C22: a registered waitable remains => WAIT on the task's own set, not EXIT");
+    let rc = st.callback(EVENT_SUBTASK, b, 2);
+    vassert!(sc().cb_calls == 2 && sc().cb_code == 2);
+    vassert!(rc == CallbackCode::Exit, "C22: the last registered waitable completed and no work remains => EXIT");
+    vassert!(sc().polls == 0 && !st.remaining_work());
+    core::mem::forget(st);
+}}
